@@ -311,6 +311,11 @@ func (f *File) Write(b []byte) (n int, err error) {
 		}
 	}
 	n = len(b)
+	if n == 0 {
+		// like write(2) with a zero count: no effect, in particular no extension of the
+		// file up to an offset beyond its end
+		return 0, nil
+	}
 	cur := atomic.LoadInt64(&f.at)
 	f.fileData.Lock()
 	defer f.fileData.Unlock()
